@@ -70,6 +70,7 @@ type scriptedClient struct {
 	served map[string]int
 	verify func(r *http.Request) error
 	verr   *[]string
+	slowOK bool // successful answers take a moment and honour the request's context
 }
 
 func (c scriptedClient) Do(req *http.Request) (*http.Response, error) {
@@ -100,6 +101,17 @@ func (c scriptedClient) Do(req *http.Request) (*http.Response, error) {
 		return nil, errors.New("transport error: " + s)
 	}
 	code := intOf(ans, 200)
+	if c.slowOK && code >= 200 && code < 300 {
+		// like net/http: an answer takes a moment, and a request whose context is cancelled meanwhile fails
+		select {
+		case <-time.After(6 * time.Millisecond):
+		case <-req.Context().Done():
+			return nil, req.Context().Err()
+		}
+	}
+	if err := req.Context().Err(); err != nil {
+		return nil, err
+	}
 	return &http.Response{StatusCode: code, Status: strconv.Itoa(code) + " " + http.StatusText(code),
 		Body: ioutil.NopCloser(bytes.NewReader([]byte("body-of-" + u))), Header: http.Header{}, Request: req}, nil
 }
@@ -120,7 +132,7 @@ func runTransport(in J) interface{} {
 		script[k] = jlist(v)
 	}
 	now := time.Unix(int64(intOf(in["now"], 1600000000)), 0)
-	client := scriptedClient{mu: mu, recs: &dos, script: script, served: map[string]int{}, verr: &verr}
+	client := scriptedClient{mu: mu, recs: &dos, script: script, served: map[string]int{}, verr: &verr, slowOK: in["slowOK"] == true}
 	var getS, postS httpsig.Signer
 	keyID := "https://a.example/users/alice#main-key"
 	var key crypto.PrivateKey = "the-actor-key"
@@ -248,14 +260,16 @@ func init() {
 			if thorough {
 				n *= 6
 			}
-			hosts := []string{"b.example", "c.example:8443", "d.example"}
+			// origins: no port, another port, and the scheme's default port spelt out (the Host header is the IRI's
+			// authority as written)
+			hosts := []string{"https://b.example", "https://c.example:8443", "https://d.example", "https://e.example:443", "http://f.example:80", "http://g.example"}
 			statuses := []interface{}{200.0, 201.0, 202.0, 204.0, 301.0, 400.0, 401.0, 404.0, 410.0, 500.0, 503.0, 100.0, 199.0, 203.0, 599.0, "reset", "timeout"}
 			// every status for single calls
 			for c := 100; c <= 599; c++ {
 				if !thorough && c%7 != 0 && c != 200 && c != 201 && c != 202 && c != 203 && c != 199 {
 					continue
 				}
-				u := "https://b.example/x"
+				u := hosts[c%len(hosts)] + "/x"
 				yield(J{"call": "deref", "url": u, "appAgent": "app/1", "now": 1600000000 + c, "script": J{u: []interface{}{float64(c)}}})
 				yield(J{"call": "deliver", "url": u, "payload": `{"type":"Note"}`, "appAgent": "app/1", "now": 1600000000 + c, "script": J{u: []interface{}{float64(c)}}})
 			}
@@ -267,7 +281,7 @@ func init() {
 				var rs []interface{}
 				script := J{}
 				for k := 0; k < nr; k++ {
-					u := fmt.Sprintf("https://%s/users/u%d/inbox", hosts[r.intn(len(hosts))], r.intn(nr+2))
+					u := fmt.Sprintf("%s/users/u%d/inbox", hosts[r.intn(len(hosts))], r.intn(nr+2))
 					rs = append(rs, u)
 					if _, ok := script[u]; !ok {
 						var as []interface{}
@@ -282,6 +296,9 @@ func init() {
 					}
 				}
 				in := J{"call": "batch", "recipients": orEmpty(rs), "payload": fmt.Sprintf(`{"type":"Note","content":"p%d"}`, i), "appAgent": fmt.Sprintf("app/%d", r.intn(3)), "now": 1500000000 + r.intn(200000000), "script": script}
+				if i%3 == 0 {
+					in["slowOK"] = true
+				}
 				if r.chance(15) {
 					in["concurrent"] = 2 + r.intn(3)
 				}
